@@ -31,8 +31,9 @@ type replayT struct {
 	Class string `json:"class,omitempty"`
 }
 
-// classes of the generator streams (each is a listed finding; the `dom` stream enables none)
-var classes = []string{"define-lit-in-loop", "lookup2-define-in-loop", "multidefine-redeclared", "append-alias-args"}
+// The generator has no class switches any more: every finding that used to be a stream (define-lit-in-loop,
+// lookup2-define-in-loop, multidefine-redeclared, append-alias-args) has been repaired in the repository; the shapes
+// stay in the default stream (gen.go) and 30 % of the programs start with one of them on purpose (shapes.go).
 
 // canonStatus: which run-time fault ended the program is not compared (when a statement has two faulting
 // operands the order in which they are detected is not part of the property); that it panicked is.
@@ -219,19 +220,13 @@ func generateAll(run *common.Run, n int) []caseT {
 					return
 				}
 				rng := rand.New(rand.NewSource(seeds[i]))
-				stream := "dom"
-				allow := map[string]bool{}
+				stream, shape := "random", -1
 				switch i % 10 {
 				case 6, 7, 8:
-					stream = classes[(i/10)%len(classes)]
-					allow[stream] = true
-				case 9:
-					stream = "wild"
-					for _, c := range classes {
-						allow[c] = true
-					}
+					shape = (i/10*3 + i%10 - 6) % nShapes
+					stream = fmt.Sprintf("seeded-%d", shape)
 				}
-				p, g := generate(rng, drv, allow)
+				p, g := generate(rng, drv, shape)
 				out[i] = caseT{p, stream}
 				if len(g.ill) > 0 {
 					mu.Lock()
@@ -273,7 +268,10 @@ func opKinds(p *Prog) map[string]bool {
 		case "":
 			sop(o.S, "op:")
 		case "rng":
-			k["op:range-"+ty(lastType(o)).K] = true
+			k["op:range"] = true
+			if o.SK != "" {
+				k["op:range-"+o.SK] = true
+			}
 			for j := range o.Body {
 				sop(&o.Body[j], "body:")
 			}
@@ -284,15 +282,13 @@ func opKinds(p *Prog) map[string]bool {
 	return k
 }
 
-func lastType(o *Op) string { return "[]" + o.ET } // only the kind of the element matters for the bucket
-
 // nontrivial: at least one statement that writes through a location that is not a plain variable, or a
 // reference-creating expression, after the pool exists (i.e. something that can tell a copy from a share).
 func nontrivial(p *Prog) bool {
 	k := opKinds(p)
 	n := 0
 	for _, s := range []string{"expr:adr", "expr:sl", "expr:new", "op:app", "op:apps", "op:cp", "op:ms", "op:call", "op:mul", "op:capture",
-		"op:range-slice", "expr:id", "op:muld", "op:lk2"} {
+		"op:range", "expr:id", "op:muld", "op:lk2"} {
 		if k[s] {
 			n++
 		}
@@ -364,7 +360,7 @@ func splitAnswer(ans string) (y, g, d, c string) {
 
 func main() {
 	run := common.NewRun("C04")
-	run.Res.Rule = "cases = operation sequences (4–12 statements after a pool of 3–5 declarations) over variables of nested composite types (arrays of structs, structs with array/slice/map/pointer fields, slices of slices and of arrays, pointers to ints/structs/arrays, maps to ints/structs/arrays/slices, slices of pointers), drawn by a seeded type-directed generator from: assign / op-assign to variables, fields, elements and pointees; define; multi-assign (swaps, rotations, index variable and element in one statement); multi-define; append (in place and growing), append of a slice, copy (overlapping), 2- and 3-index slicing of slices, arrays and array pointers; map insert / delete / lookup / comma-ok lookup; address-of, dereference (explicit and automatic); passing to and returning from functions (identity, and one that mutates its parameter); range over arrays and slices with mutation in the body; closures capturing a per-iteration variable; statements wrapped in immediately called closures. Each program prints the whole pool (deep rendering: no addresses, len/cap and nil-ness of slices) after every statement. Every statement is checked against the Lean specification model while generating, so sequences are panic-free except for a deliberate share of panicking last statements. Streams: dom (inside the domain of ops_refine_partial) 60 %, one listed divergence class enabled 30 %, all enabled 10 %. non-trivial = at least 5 statements and two different reference-creating or reference-using constructs (address-of, slicing, new, append, copy, map insert, call, multi-assign, capture, range over slice, …); distinct = distinct protocol line"
+	run.Res.Rule = "cases = (a) operation sequences (4–12 statements after a pool of 3–5 declarations) over variables of nested composite types (arrays of structs, structs with array/slice/map/pointer fields, slices of slices and of arrays, pointers to ints/structs/arrays, maps to ints/structs/arrays/slices, slices of pointers), drawn by a seeded type-directed generator from: assign / op-assign to variables, fields, elements and pointees; define (composite literals of every kind, also in loop bodies); multi-assign (swaps, rotations, index variable and element in one statement); multi-define (also redeclaring variables of the same scope); append (in place and growing, operands aliasing the destination), append of a slice, copy (overlapping), 2- and 3-index slicing of slices, arrays and array pointers; map insert / delete / lookup / comma-ok lookup in both forms (declared in loop bodies, with redeclared variables); address-of (also &p[i] through a pointer to an array, &[n]T{…} per iteration), dereference (explicit and automatic, nil pointers feeding map stores); passing to and returning from functions (identity, and one that mutates its parameter); range over arrays, slices and pointers to arrays with mutation in the body; closures capturing a per-iteration variable; statements wrapped in immediately called closures; every declared variable is also assigned to the blank identifier. Each program prints the whole pool (deep rendering: no addresses, len/cap and nil-ness of slices) after every statement. Every statement is checked against the Lean specification model while generating, so sequences are panic-free except for a deliberate share of panicking last statements. 30 % of the programs start with one of nine seeds: the shapes of the findings repaired on 2026-09-26 (F04-4 … F04-12) with random types, values and indices. No class of operation sequences is excluded or suppressed. (b) source templates (16, random types / values / counts / call orders) for shapes outside the operation language: closures over variables declared from literals in loop bodies, &literal per iteration in three-clause loops, v, ok := <-ch with &v, redeclared captured variables, blank assignments, nil dereference whose value is unused, range over pointer to array in its three forms, &p[i]; four of them are the open findings F04-13 … F04-16 (class label = template). non-trivial (a) = at least 5 statements and two different reference-creating or reference-using constructs (address-of, slicing, new, append, copy, map insert, call, multi-assign, capture, range, …), (b) = every template instance; distinct = distinct protocol line / distinct source text"
 	defer run.Finish()
 	defer setupGoCache(run)()
 	drv, err := common.StartDriver("C04")
@@ -467,13 +463,13 @@ func main() {
 		line := p.line()
 		run.Count(line, nontrivial(&p))
 		run.Hit("stream:" + cases[i].stream)
+		// o.class: the formerly diverging shapes the program contains (coverage only: none is a finding any more)
 		if o.class != "" {
-			run.Hit("class:" + o.class)
+			for _, c := range strings.Split(o.class, ",") {
+				run.Hit("shape:" + c)
+			}
 		} else {
-			run.Hit("class:in-domain")
-		}
-		if (o.class == "") != (o.d == "1") {
-			run.Errorf("class %q but Dom=%s on %s", o.class, o.d, line)
+			run.Hit("shape:none")
 		}
 		for k := range opKinds(&p) {
 			run.Hit("has:" + k)
@@ -485,15 +481,12 @@ func main() {
 		if o.y == o.g {
 			run.Hit("model:y=g")
 		} else {
-			run.Hit("model:y!=g")
-			if o.d == "1" {
-				run.Hit("model:y!=g-inside-dom") // impossible while the extracted facts equal the expected ones (ops_refine_partial)
-			}
+			run.Hit("model:y!=g") // impossible while the extracted facts equal the expected ones (theorem ops_refine)
 		}
 		if i < 6 {
 			run.Sample(map[string]interface{}{"prog": p, "impl": clip(o.impl), "model": clip(o.y), "spec": clip(o.g), "ref": clip(o.ref)}, 6)
 		}
-		input := replayT{Kind: "prog", Prog: &progs[i], Class: o.class}
+		input := replayT{Kind: "prog", Prog: &progs[i]}
 		if strings.HasPrefix(o.ref, "toolchain-failure:") {
 			run.Hit("toolchain-failure") // the Go compiler itself crashed on this program (seen: "internal compiler error: nilcheck still has 1 uses")
 			continue
@@ -509,15 +502,14 @@ func main() {
 			run.Disagree(common.Disagreement{Kind: "spec-vs-ref", Input: input, Spec: diffClip(o.g, o.ref), Ref: diffClip(o.ref, o.g)})
 		}
 		if o.impl != o.ref {
-			d := common.Disagreement{Kind: "impl-vs-ref", Input: input, Impl: diffClip(o.impl, o.ref), Model: diffClip(o.y, o.ref), Ref: diffClip(o.ref, o.impl), Finding: o.class}
+			// no class of operation sequences is a listed finding any more: every such input is a violation
+			d := common.Disagreement{Kind: "impl-vs-ref", Input: input, Impl: diffClip(o.impl, o.ref), Model: diffClip(o.y, o.ref), Ref: diffClip(o.ref, o.impl)}
 			if o.impl != o.y {
-				d.Finding, d.Note = "", "differs from the reference and from the model of the unchanged code (class "+o.class+")"
+				d.Note = "differs from the reference and from the model of the unchanged code (shapes: " + o.class + ")"
+			} else if o.class != "" {
+				d.Note = "shapes: " + o.class
 			}
-			if d.Finding == "" || !listed[d.Finding] {
-				unlisted = append(unlisted, pending{d, p, o.class})
-			} else {
-				run.Disagree(d)
-			}
+			unlisted = append(unlisted, pending{d, p, o.class})
 		}
 	}
 	// failing inputs that no listed class explains: smallest first, the smallest one shrunk further
@@ -528,13 +520,57 @@ func main() {
 			if size(&sp) < size(&u.p) {
 				o := evaluate(run, drv, []Prog{sp})
 				if o != nil && o[0].impl != o[0].ref {
-					run.Disagree(common.Disagreement{Kind: "impl-vs-ref", Input: replayT{Kind: "prog", Prog: &sp, Class: o[0].class},
+					run.Disagree(common.Disagreement{Kind: "impl-vs-ref", Input: replayT{Kind: "prog", Prog: &sp},
 						Impl: diffClip(o[0].impl, o[0].ref), Ref: diffClip(o[0].ref, o[0].impl), Finding: u.d.Finding, Note: "shrunk from a generated case; " + u.d.Note})
 				}
 			}
 		}
 		run.Disagree(u.d)
 	}
+	if run.Replay == "" {
+		nsrc := 480
+		if run.Thorough() {
+			nsrc = 4000
+		}
+		if v := os.Getenv("VERIF_C04_NSRC"); v != "" {
+			fmt.Sscan(v, &nsrc)
+		}
+		runSrcStream(run, nsrc, listed)
+	}
+}
+
+// runSrcStream: the source-level templates (srcgen.go), interpreter against compiled program.
+func runSrcStream(run *common.Run, n int, listed map[string]bool) {
+	cases := make([]srcCase, n)
+	srcs := make([]string, n)
+	for i := range cases {
+		rng := rand.New(rand.NewSource(run.Rng.Int63()))
+		cases[i] = genSrc(rng, i)
+		srcs[i] = cases[i].src
+	}
+	impls := runAllYaegi(srcs)
+	refs := runAllGo(srcs, run)
+	for i, c := range cases {
+		run.Count("src:"+c.src, true)
+		run.Hit("stream:source-templates")
+		run.Hit("src:" + c.label)
+		im, rf := canonObs(impls[i]), canonObs(refs[i])
+		if strings.HasPrefix(rf, "toolchain-failure:") {
+			run.Hit("toolchain-failure")
+			continue
+		}
+		if strings.HasPrefix(rf, "cerr:") || strings.HasPrefix(rf, "timeout") {
+			run.Errorf("source template %s does not compile / run: %s\n%s", c.label, rf, c.src)
+			continue
+		}
+		if im != rf {
+			run.Disagree(common.Disagreement{Kind: "impl-vs-ref", Input: replayT{Kind: "src", Src: c.src, Class: c.class},
+				Impl: diffClip(im, rf), Ref: diffClip(rf, im), Finding: c.class, Note: "source template " + c.label})
+		} else if c.class != "" {
+			run.Hit("open-finding-agrees:" + c.class) // the listed finding did not show on this instance
+		}
+	}
+	_ = listed
 }
 
 // listedClasses reads the class labels of the listed findings of this property (KNOWN_FINDINGS.json "classes").
@@ -640,7 +676,7 @@ func shrink(run *common.Run, drv *common.Driver, p Prog, class string) Prog {
 			if strings.HasPrefix(o.ref, "cerr:") || strings.HasPrefix(o.ref, "harness-error") || strings.HasPrefix(o.ref, "toolchain-failure") || strings.HasPrefix(o.g, "ill") {
 				continue
 			}
-			if o.impl != o.ref && o.class == class {
+			if o.impl != o.ref {
 				p, found = ok[i], true
 				break
 			}
